@@ -43,6 +43,8 @@ func profiles() map[string]world.Profile {
 		"ListRules": 4, "ProcessEvent": 12, "BadRequest": 8}
 	expiryRules := map[string]int{"AddRule": 22, "RemRule": 4, "ProcessEvent": 40, "Sleep": 10, "Reload": 4, "GetRule": 4,
 		"ListRules": 3, "SearchRules": 5, "AddFact": 3}
+	cronw := map[string]int{"AddRule": 26, "RemRule": 8, "RemFact": 6, "AddFact": 12, "EnableRule": 5, "Clear": 2, "Tick": 22,
+		"ProcessEvent": 6, "ListRules": 2, "Restart": 4, "GetRule": 3}
 	ids := []string{"f1", "f2", "f3"}
 	return map[string]world.Profile{
 		"facts":        {Name: "facts", Len: 40, Locs: []string{"A"}, Ids: ids, MaxFacts: 1000, Weights: facts},
@@ -57,6 +59,7 @@ func profiles() map[string]world.Profile {
 		"system":       {Name: "system", Len: 50, Locs: []string{"A", "B", "C"}, Ids: []string{"f1", "f2", "r1", "r2"}, Rules: true, Parents: true, Cascade: true, MaxFacts: 1000, Weights: system},
 		"service":      {Name: "service", Len: 50, Locs: []string{"A", "B"}, Ids: []string{"f1", "r 1", "a\"b", "x&y=z", "%25+\u00fc"}, Rules: true, Parents: true, MaxFacts: 1000, Weights: svc},
 		"expiry-rules": {Name: "expiry-rules", Len: 36, Locs: []string{"A"}, Ids: []string{"r1", "r2", "r3"}, Rules: true, Index: true, Expiry: true, MaxFacts: 1000, Weights: expiryRules},
+		"cron":         {Name: "cron", Len: 45, Locs: []string{"A", "B"}, Ids: []string{"r1", "r2", "base"}, Rules: true, Cron: true, MaxFacts: 1000, Weights: cronw},
 		"parents":      {Name: "parents", Len: 45, Locs: []string{"A", "B", "C"}, Ids: []string{"f1", "f2", "r1", "r2"}, Rules: true, Parents: true, SideEffects: true, MaxFacts: 1000, Weights: parents},
 	}
 }
@@ -75,6 +78,7 @@ func main() {
 		faults = flag.Bool("faults", false, "inject one storage failure in the second half of each trace")
 		via    = flag.String("via", "", "\"\" (core.Location) | system (sys.System)")
 		ttl    = flag.String("ttl", "all", "location cache TTL for -via system: never|1ms|forever|all (rotate)")
+		cronk  = flag.String("cron", "rec", "cron service for -via system: rec | rec-ephemeral | internal | all (rotate)")
 		check  = flag.String("check", "both", "existence checking for -via system: on|off|both (rotate)")
 	)
 	flag.Parse()
@@ -133,6 +137,18 @@ func main() {
 							cfg.Sys.TTL = []string{"never", "1ms", "forever"}[i%3]
 						}
 						cfg.Sys.CheckExistence = *check == "on" || (*check == "both" && (i/3)%2 == 0)
+						cfg.Sys.Cron = *cronk
+						if *cronk == "all" {
+							cfg.Sys.Cron = []string{"rec", "rec-ephemeral", "internal"}[(i/2)%3]
+						}
+						if cfg.Sys.Cron != "rec" {
+							cfg.Sys.TTL = "forever" // a System refuses a finite TTL with a cron that does not persist its jobs
+						}
+						if *store == "bolt" {
+							cfg.BoltFile = fmt.Sprintf("%s/verif-sysbolt-%d-%d-%s-%d.db", os.TempDir(), os.Getpid(), i, st, attempt)
+							os.Remove(cfg.BoltFile)
+							defer os.Remove(cfg.BoltFile)
+						}
 					}
 					w, err := world.NewWorld(cfg, rec, ms)
 					if err != nil {
@@ -141,6 +157,12 @@ func main() {
 					}
 					for k := 0; k < p.Len; k++ {
 						op := g.Next()
+						if op.Op == "Restart" && !(*via == "system" && *store == "bolt") {
+							continue
+						}
+						if op.Op == "Tick" && *via == "" {
+							continue
+						}
 						if op.Op == "Sleep" {
 							time.Sleep(1100 * time.Millisecond)
 							continue
